@@ -306,12 +306,19 @@ func main() {
 	seed := flag.Uint64("seed", 1, "seed")
 	tier := flag.String("tier", "quick", "tier")
 	_ = flag.String("replay", "", "unused: cases are regenerated from the seed")
-	stage := flag.String("stage", "layers", "layers|layerfile|bytes|e2e")
+	stage := flag.String("stage", "layers", "layers|layerfile|bytes|e2e|faults")
 	fault := flag.String("fault", "", "layerfile-child: the fault case (JSON)")
 	faultOut := flag.String("fault-out", "", "layerfile-child: the output path")
 	flag.Parse()
 	if *stage == "layerfile-child" {
 		if err := layerfileChild(*fault, *faultOut); err != nil {
+			fmt.Fprintln(os.Stderr, "c06:", err)
+			os.Exit(2)
+		}
+		return
+	}
+	if *stage == "faults" {
+		if err := faultsStage(*out, *seed, *tier); err != nil {
 			fmt.Fprintln(os.Stderr, "c06:", err)
 			os.Exit(2)
 		}
